@@ -656,10 +656,13 @@ impl<Context: ServerContext> ApiDescription<Context> {
         openapi.openapi = "3.0.3".to_string();
         openapi.info = info;
 
-        // Gather up the ad hoc tags from endpoints
+        // Gather up the ad hoc tags from endpoints.  Like the operations
+        // below, this only looks at published endpoints: an unpublished
+        // endpoint leaves no trace in the document.
         let endpoint_tags = self
             .router
             .endpoints(Some(version))
+            .filter(|(_, _, endpoint)| endpoint.visible)
             .flat_map(|(_, _, endpoint)| {
                 endpoint
                     .tags
